@@ -1274,15 +1274,24 @@ impl<T: Transport, Env: UtpEnvironment> VirtualSocket<T, Env> {
                 |s| s.rtte.sample(rtt)
             );
         }
-        self.congestion_controller
-            .set_remote_window(msg.header.wnd_size as usize);
+        // A packet that acknowledges less than what was acknowledged already has been overtaken
+        // by a newer one on the way, so the window it advertises is old news too. Acting on it
+        // could close the window for good: with nothing in flight the remote has no reason to
+        // tell us again.
+        let overtaken = msg.header.ack_nr < self.user_tx_segments.snd_una() - 1;
+        if !overtaken {
+            self.congestion_controller
+                .set_remote_window(msg.header.wnd_size as usize);
+        }
         self.congestion_controller.on_ack(
             self.this_poll.now,
             result.on_ack_result.acked_bytes,
             &self.rtte,
         );
         self.last_remote_timestamp = msg.header.timestamp_microseconds;
-        self.last_remote_window = msg.header.wnd_size;
+        if !overtaken {
+            self.last_remote_window = msg.header.wnd_size;
+        }
         #[cfg(feature = "per-connection-metrics")]
         {
             self.metrics
